@@ -113,11 +113,73 @@ for (mod, pre, U) in (("full", "full", FM), ("optimal", "opt", OM)):
     for w in ("emptyrem", "remafter", "rembefore", "beyondcap"):
         T("C08", "d1_override_witness_" + w, 1, "override_range", "quick", expect="known")
     # C15
-    for what in ("set", "delete", "append", "setrange"):
+    for what in ("set", "delete", "setrange"):
         T("C15", "d2_c15_" + what, 2, what, "quick", obs="the empty-index list")
+        T("C15", "d1_c15_" + what, 1, what, "thorough", obs="the empty-index list")
+    T("C15", "d1_c15_append", 1, "append", "quick", obs="the empty-index list")
+    T("C15", "d2_c15_append", 2, "append", "thorough", mem=16, tmo=3000, obs="the empty-index list")
     T("C15", "d1_c15_override_inrange", 1, "override_inrange", "quick", obs="the empty-index list")
     T("C15", "d2_c15_override_inrange", 2, "override_inrange", "thorough", mem=10, tmo=3000, obs="the empty-index list")
     T("C15", "d3_c15_setrange", 3, "setrange", "thorough", mem=12, tmo=3000, obs="the empty-index list")
+
+# ------------------------------------------------------------------------------------------------
+# C02 / C13 — verification entry points (mounted build h_rln)
+# ------------------------------------------------------------------------------------------------
+PUB = "rln::public::RLN::"
+_RLN_STUBS = "stubs: verify_proof (recording, nondeterministic verdict), poseidon_hash + hash_to_field (toy), leaf codec (contract validated by Engine M), curve-point decoding (ark-ec model)"
+def R(pid, name, tier, bounds, units, mem=8, tmo=2400, expect="pass", **kw):
+    K(pid, "h_rln", "c02_c13::proofs::" + name, tier=tier, mem_gb=mem, timeout_s=tmo, bounds=bounds + "; " + _RLN_STUBS, units=units, expect=expect, **kw)
+R("C13", "c13_verify_nopanic_300", "quick", "arbitrary bytes, EVERY length 0..=300 at once", [PUB + "verify", "rln::protocol::deserialize_proof_values"])
+R("C13", "c13_verify_rln_proof_nopanic_300", "quick", "arbitrary bytes, every length 0..=300 (declared signal length: any 64-bit value)", [PUB + "verify_rln_proof", "rln::protocol::deserialize_proof_values"])
+R("C13", "c13_verify_with_roots_nopanic_300", "quick", "arbitrary bytes, every length 0..=300; root buffer arbitrary, every length 0..=40", [PUB + "verify_with_roots"], mem=14)
+R("C13", "c13_recover_nopanic_296", "quick", "two arbitrary inputs, every pair of lengths 0..=296", [PUB + "recover_id_secret", "rln::protocol::compute_id_secret"], mem=12)
+R("C13", "c13_verify_nopanic_340", "thorough", "arbitrary bytes, every length 0..=340", [PUB + "verify"], mem=12)
+R("C13", "c13_verify_rln_proof_nopanic_304", "thorough", "arbitrary bytes, every length 0..=304", [PUB + "verify_rln_proof"], mem=12)
+R("C13", "c13_verify_with_roots_nopanic_304", "thorough", "arbitrary bytes, every length 0..=304; roots 0..=70", [PUB + "verify_with_roots"], mem=16, tmo=3000)
+R("C02", "c02_verify_logic", "quick", "288-byte message, arbitrary content", [PUB + "verify", "rln::protocol::deserialize_proof_values"])
+R("C02", "c02_verify_rln_proof_logic", "quick", "300-byte message, arbitrary content (signal <= 4 bytes, declared length any 64-bit value), verifier tree = depth-0 tree holding an arbitrary leaf", [PUB + "verify_rln_proof"], mem=14)
+R("C02", "c02_verify_with_roots_logic_1root", "quick", "300-byte message; root buffer of length 0/31/32/40 (empty set, fragment, one root, one root + fragment)", [PUB + "verify_with_roots"], mem=14, tmo=3000)
+R("C02", "c02_verify_with_roots_logic", "thorough", "300-byte message; root buffer of length 0/31/32/40/64/70 (up to two roots)", [PUB + "verify_with_roots"], mem=16, tmo=3600)
+
+# ------------------------------------------------------------------------------------------------
+# C12 (guard) / C04 — free functions of the real rln crate (h_core)
+# ------------------------------------------------------------------------------------------------
+K("C12", "h_core", "c12_guard::proofs::c12_range_check", bounds="message id and limit: arbitrary canonical field elements (254 bits)",
+  units=["rln::protocol::message_id_range_check"], replay_body="c12_range_check")
+K("C12", "h_core", "c12_guard::proofs::c12_range_check_bits_witness", bounds="message id and limit: arbitrary canonical field elements",
+  units=["rln::protocol::message_id_range_check"], expect="known", replay_body="c12_range_check_bits")
+for d in (0, 1, 2, 3):
+    K("C04", "h_core", "c04_formulas::proofs::c04_proof_values_d%d" % d, tier="quick" if d in (0, 2) else "thorough", mem_gb=8, timeout_s=1800,
+      bounds="all (s, limit, m, x, e) canonical field elements, path of length %d with arbitrary elements and arbitrary direction bytes; Poseidon = toy mixer, field multiplication = model mixer" % d,
+      units=["rln::protocol::proof_values_from_witness", "rln::protocol::compute_tree_root", "rln::protocol::rln_witness_from_values"])
+
+# ------------------------------------------------------------------------------------------------
+# C10 — composite codecs (h_core, leaf codec replaced by its Engine-M-validated contract)
+# ------------------------------------------------------------------------------------------------
+_C10_STUB = "leaf codec (bytes_le_to_fr / fr_to_bytes_le) replaced by its contract (validated from MIR by c10_leaf_roundtrip / c10_decode_contract)"
+def C10(name, tier, bounds, units, mem=8, tmo=1800, pid="C10"):
+    K(pid, "h_core", "c10_codecs::proofs::" + name, tier=tier, mem_gb=mem, timeout_s=tmo, bounds=bounds + "; " + _C10_STUB, units=units)
+for n in (0, 1, 2):
+    C10("c10_vec_fr_%d" % n, "quick" if n == 2 else "thorough", "vector of %d arbitrary canonical elements" % n, ["rln::utils::vec_fr_to_bytes_le", "rln::utils::bytes_le_to_vec_fr"])
+C10("c10_vec_u8", "quick", "byte vectors of every length 0..=8, arbitrary content", ["rln::utils::vec_u8_to_bytes_le", "rln::utils::bytes_le_to_vec_u8"])
+C10("c10_vec_usize", "quick", "index lists of 0..=2 arbitrary 64-bit values; both the reader and ark-serialize's writer used by get_empty_leaves_indices", ["rln::utils::bytes_le_to_vec_usize", "ark_serialize::CanonicalSerialize for Vec<usize>"])
+C10("c10_proof_values", "quick", "five arbitrary canonical elements", ["rln::protocol::serialize_proof_values", "rln::protocol::deserialize_proof_values"])
+C10("c10_witness_decode_d0", "quick", "witness with empty path, all fields arbitrary; decode of the independent encoding, and of it plus one arbitrary trailing byte", ["rln::protocol::deserialize_witness", "rln::utils::bytes_le_to_vec_fr", "rln::utils::bytes_le_to_vec_u8"], mem=10, tmo=2400)
+C10("c10_witness_decode_d1", "thorough", "witness with path length 1", ["rln::protocol::deserialize_witness"], mem=10, tmo=2400)
+C10("c10_witness_decode_d2", "thorough", "witness with path length 2", ["rln::protocol::deserialize_witness"], mem=10, tmo=2400)
+C10("c10_witness_encode_len_d0", "thorough", "witness with empty path: LENGTH of the encoding only (byte content of serialize_witness is outside the claim: not decidable within 62 GB)", ["rln::protocol::serialize_witness"], mem=8)
+C10("c10_witness_encode_len_d2", "thorough", "witness with path length 2: length of the encoding only", ["rln::protocol::serialize_witness"], mem=8)
+C10("c10_prove_input_layout", "quick", "arbitrary elements, 64-bit index, signals of every length 0..=6", ["rln::protocol::prepare_prove_input", "rln::utils::normalize_usize"], mem=14, tmo=2400)
+C10("c10_verify_input_layout", "quick", "6 arbitrary proof bytes, signals of every length 0..=5", ["rln::protocol::prepare_verify_input"])
+C10("c10_identity_tuples", "quick", "four arbitrary canonical elements", ["rln::protocol::deserialize_identity_pair", "rln::protocol::deserialize_identity_tuple", "rln::protocol::serialize_field_element", "rln::protocol::deserialize_field_element"])
+C10("c12_deserialize_witness_nopanic", "quick", "arbitrary bytes, EVERY length 0..=214 at once", ["rln::protocol::deserialize_witness", "rln::utils::bytes_le_to_vec_fr", "rln::utils::bytes_le_to_vec_u8", "rln::protocol::message_id_range_check"], pid="C12", tmo=2400)
+
+# C07 on arbitrary proof objects
+for (mod, pre, U) in (("full", "full", FM.replace("FullMerkleTree", "FullMerkleProof")), ("optimal", "opt", OM.replace("OptimalMerkleTree", "OptimalMerkleProof"))):
+    for L, tier in ((3, "thorough"), (10, "quick"), (20, "thorough")):
+        K("C07", "h_utils", "%s::proofs::%s_c07_proof_object_%d" % (mod, pre, L), tier=tier, mem_gb=6, timeout_s=1500,
+          bounds="ARBITRARY proof value of %d levels (symbolic siblings <= 255, symbolic direction bits): decoding (leaf_index = LSB-first expansion), path vectors, root recomputation = independent fold" % L,
+          units=[U + x for x in ("leaf_index", "get_path_index", "get_path_elements", "compute_root_from", "length")], replay_body=None)
 
 # ------------------------------------------------------------------------------------------------
 ASSUMPTIONS = {
@@ -135,6 +197,13 @@ ASSUMPTIONS = {
         "this covers histories of any length at the stated depths; depths above 3 are outside the claim",
         "pre-states of the Optimal backend contain no map entries outside the tree (reachable only through rejected/empty requests and never read)",
     ],
+    "C02": ["Groth16 soundness and collision-freeness of Keccak/Poseidon are trusted: the proof check is a recording stub with a nondeterministic verdict",
+            "the verifier's tree is a depth-0 FullMerkleTree (root = one arbitrary leaf); deeper trees are C06/C07's subject"],
+    "C13": ["inputs longer than the stated buffer are outside the claim (the parse paths have no length-dependent branches beyond the fixed part and the declared signal length)"],
+    "C10": ["the byte CONTENT produced by serialize_witness is outside the claim (reading the produced Vec exhausts 62 GB in CBMC); its length, its decoder and the pieces it concatenates are checked",
+            "JSON witness codec and str_to_fr are outside the claim (serde_json / allocation-heavy third-party code)"],
+    "C12": ["that a request inside the satisfiable region yields a verifying proof is C01 (not applicable); the circuit's region itself (message_id < limit <= 2^16) is taken from the circuit source, not decided"],
+    "C04": ["'equal to the circuit's witness outputs' is outside the claim (needs true field arithmetic)"],
     "C19": [
         "oracle written from circom's documentation in 256-bit limb arithmetic (engine_k/vlib/vlib.rs)",
         "values of Mul/Div/Pow (true field products) and Idiv/Mod quotients beyond the multiplication-free lemmas are outside the claim",
